@@ -415,6 +415,20 @@ func r15d(c *an.Ctx) {
 				}
 			}
 		}
+		// or stored into the slot of the range statement's own index (pre-sized list)
+		if h, _ := an.EnclosingLoop(call.Block()); h != nil && strings.HasPrefix(h.Comment, "rangeindex") {
+			an.Instrs(fn, func(in ssa.Instruction) {
+				st, isSt := in.(*ssa.Store)
+				if !isSt || !carriesVal(st.Val, role0) || !an.Dominates(call, st) {
+					return
+				}
+				if ia, isIA := st.Addr.(*ssa.IndexAddr); isIA {
+					if bo, isBo := ia.Index.(*ssa.BinOp); isBo && bo.Block() == h {
+						seqOK = true
+					}
+				}
+			})
+		}
 	}
 	c.Ob(role+"|sequential|append-in-order", fn.Pos(), seqOK, "the sequential branch appends one generated role per range element, in range order")
 }
